@@ -214,6 +214,7 @@ package consensus
 //@ spec rec sumSCParents(ms MidState, ts V1TransactionSupplement, ins []types.SiacoinInput, n int) int = n <= 0 ? 0 : sumSCParents(ms, ts, ins, n-1) + types.u128(ms.siacoinElement(ts, ins[n-1].ParentID).0.SiacoinOutput.Value)
 
 //@ func validateSiacoins
+//@   abstract
 //@   prop C08 C02 C03 C01 C10
 //@   requires ms.base.Network != nil
 //@   requires msWF(*ms) && scBounded(*ms, ts) && len(txn.SiacoinInputs) < NB
@@ -343,6 +344,7 @@ package consensus
 //@ spec rec sumSFParents(ms MidState, ts V1TransactionSupplement, ins []types.SiafundInput, n int) int = n <= 0 ? 0 : sumSFParents(ms, ts, ins, n-1) + ms.siafundElement(ts, ins[n-1].ParentID).0.SiafundOutput.Value
 
 //@ func validateSiafunds
+//@   abstract
 //@   prop C08 C02 C03 C01 C10
 //@   requires ms.base.Network != nil
 //@   requires msWF(*ms) && sfBounded(*ms, ts) && len(txn.SiafundInputs) < NB && len(txn.SiafundOutputs) < NB
@@ -361,6 +363,7 @@ package consensus
 //@   ensures @B2-count-preserved result == nil ==> sumSFParents(*ms, ts, txn.SiafundInputs, len(txn.SiafundInputs)) == sumSFO(txn.SiafundOutputs, len(txn.SiafundOutputs))
 
 //@ func validateMinimumValues
+//@   abstract
 //@   prop C01 C10
 //@   ghost k int
 //@   invariant loop#1 @z zero || (0 <= k && k < $n ==> types.u128(txn.SiacoinOutputs[k].Value) != 0)
@@ -381,6 +384,7 @@ package consensus
 //@ spec v1Total(txn types.Transaction) int = sumSCO(txn.SiacoinOutputs, len(txn.SiacoinOutputs)) + sumFCAll(txn.FileContracts, len(txn.FileContracts)) + sumRevAll(txn.FileContractRevisions, len(txn.FileContractRevisions))
 
 //@ func validateCurrencyOverflow
+//@   abstract
 //@   prop C10 C01
 //@   ghost k int
 //@   invariant loop#1 @sum !overflow ==> types.u128(sum) == sumSCO(txn.SiacoinOutputs, $n)
@@ -423,6 +427,7 @@ package consensus
 //@ spec v1fcSumsOK(fc types.FileContract) bool = (forall j in 0..len(fc.ValidProofOutputs)+1 :: sumSCO(fc.ValidProofOutputs, j) < types.M128) && (forall j in 0..len(fc.MissedProofOutputs)+1 :: sumSCO(fc.MissedProofOutputs, j) < types.M128)
 
 //@ func validateFileContracts
+//@   abstract
 //@   prop C07 C08 C02 C03 C01 C10
 //@   requires ms.base.Network != nil && msWF(*ms)
 //@   requires forall i in 0..len(txn.FileContracts) :: v1fcSumsOK(txn.FileContracts[i]) && sumSCO(txn.FileContracts[i].ValidProofOutputs, len(txn.FileContracts[i].ValidProofOutputs)) + types.u128(txn.FileContracts[i].Payout) < types.M128
@@ -473,6 +478,7 @@ package consensus
 //@ spec ephSC(ms MidState, sci types.V2SiacoinInput) bool = has(ms.elements, sci.Parent.ID) && ms.elements[sci.Parent.ID] < len(ms.sces) && ms.sces[ms.elements[sci.Parent.ID]].Created && (cheight(ms.base) >= ms.base.Network.HardforkV2.EphemeralOutputHeight ==> sci.Parent.ID == ms.sces[ms.elements[sci.Parent.ID]].SiacoinElement.ID && sci.Parent.SiacoinOutput == ms.sces[ms.elements[sci.Parent.ID]].SiacoinElement.SiacoinOutput && sci.Parent.MaturityHeight == ms.sces[ms.elements[sci.Parent.ID]].SiacoinElement.MaturityHeight)
 
 //@ func validateV2Siacoins
+//@   abstract
 //@   requires @decoded-txn-has-resolutions forall j in 0..len(txn.FileContractResolutions) :: !isnil(txn.FileContractResolutions[j].Resolution)
 //@   prop C08 C02 C03 C01 C04 C10
 //@   requires ms.base.Network != nil && msWF(*ms) && len(txn.SiacoinInputs) < NB
@@ -511,6 +517,7 @@ package consensus
 //@ spec ephSF(ms MidState, sfi types.V2SiafundInput) bool = has(ms.elements, sfi.Parent.ID) && ms.elements[sfi.Parent.ID] < len(ms.sfes) && ms.sfes[ms.elements[sfi.Parent.ID]].Created && cheight(ms.base) < ms.base.Network.HardforkV2.EphemeralOutputHeight
 
 //@ func validateV2Siafunds
+//@   abstract
 //@   requires @decoded-txn-has-resolutions forall j in 0..len(txn.FileContractResolutions) :: !isnil(txn.FileContractResolutions[j].Resolution)
 //@   prop C08 C02 C03 C01 C04 C10
 //@   requires ms.base.Network != nil && msWF(*ms) && len(txn.SiafundInputs) < NB && len(txn.SiafundOutputs) < NB
@@ -533,12 +540,14 @@ package consensus
 //@   ensures @B7-count-preserved result == nil ==> sumV2SFParents(txn.SiafundInputs, len(txn.SiafundInputs)) == sumSFO(txn.SiafundOutputs, len(txn.SiafundOutputs))
 
 //@ func validateAttestations
+//@   abstract
 //@   prop C03 C10
 //@   ghost k int
 //@   invariant loop#1 @checked 0 <= k && k < $n ==> len(txn.Attestations[k].Key) != 0 && txn.Attestations[k].PublicKey.VerifyHash(ms.base.AttestationSigHash(txn.Attestations[k]), txn.Attestations[k].Signature)
 //@   ensures @AT-signed result == nil && 0 <= k && k < len(txn.Attestations) ==> len(txn.Attestations[k].Key) != 0 && txn.Attestations[k].PublicKey.VerifyHash(ms.base.AttestationSigHash(txn.Attestations[k]), txn.Attestations[k].Signature)
 
 //@ func validateFoundationUpdate
+//@   abstract
 //@   prop C03 C10
 //@   invariant loop#1 @none-yet forall j in 0..$n :: txn.SiacoinInputs[j].Parent.SiacoinOutput.Address != ms.base.FoundationManagementAddress
 //@   ensures @FU-authorized result == nil && txn.NewFoundationAddress != nil ==> exists j in 0..len(txn.SiacoinInputs) :: txn.SiacoinInputs[j].Parent.SiacoinOutput.Address == ms.base.FoundationManagementAddress
@@ -555,6 +564,7 @@ package consensus
 //@ spec parentOK(ms MidState, fce types.V2FileContractElement) bool = !has(ms.spends, fce.ID) && ms.base.Elements.containsUnresolvedV2FileContractElement(fce.Share())
 
 //@ func validateV2FileContracts
+//@   abstract
 //@   prop C07 C08 C02 C03 C04 C10
 //@   requires ms.base.Network != nil && msWF(*ms)
 //@   requires cheight(ms.base) >= ms.base.Network.HardforkV2.EphemeralOutputHeight
@@ -744,6 +754,7 @@ package consensus
 //@   requires s.Network != nil
 
 //@ func validateSignatures
+//@   abstract
 //@   prop C10 C03
 //@   requires ms.base.Network != nil
 
@@ -758,3 +769,42 @@ package consensus
 //@   prop C10
 //@   ensures @true-only-in-range result ==> cfInRange(txn, cf)
 //@   ensures @false-only-out-of-range cfInRange(txn, cf) ==> result
+
+// ------------------------------------------------------------ validation.go: the transaction-level entry points run every rule
+// The individual validators are deterministic functions of (MidState, transaction[, supplement])
+// (they are `abstract` at call sites: an uninterpreted function constrained by their proved
+// postconditions).  A transaction is accepted only if every one of them accepts it and the
+// height gate of its version holds.  The validators' preconditions that concern 128-bit
+// overflow are established by the overflow pre-check that runs first; that step is NOT proved
+// here (the pre-checks have no functional contract yet): those call-site obligations are
+// reported as undecided.
+//@ func validateV2CurrencyOverflow
+//@   abstract
+//@ func validateArbitraryData
+//@   abstract
+
+//@ func (State).V2TransactionWeight
+//@   abstract
+//@ func (State).TransactionWeight
+//@   abstract
+//@ func (State).MaxBlockWeight
+//@   abstract
+
+//@ func ValidateV2Transaction
+//@   prop C10 C01
+//@   requires ms.base.Network != nil && msWF(*ms)
+//@   requires @sizes len(txn.SiacoinInputs) < NB && len(txn.SiafundInputs) < NB && len(txn.SiafundOutputs) < NB
+//@   requires @after-ephemeral-window cheight(ms.base) >= ms.base.Network.HardforkV2.EphemeralOutputHeight
+//@   requires @midstate-index forall id types.ElementID :: has(ms.elements, id) ==> ms.elements[id] < len(ms.v2fces)
+//@   requires @supply-bound forall j in 0..len(ms.v2fces) :: ms.v2fces[j].Revision != nil ==> types.u128(deref(ms.v2fces[j].Revision).RenterOutput.Value) + types.u128(deref(ms.v2fces[j].Revision).HostOutput.Value) < EB
+//@   requires @decoded-txn-has-resolutions forall j in 0..len(txn.FileContractResolutions) :: !isnil(txn.FileContractResolutions[j].Resolution)
+//@   ensures @runs-every-validator result == nil ==> cheight(ms.base) >= ms.base.Network.HardforkV2.AllowHeight && validateV2CurrencyOverflow(ms, txn) == nil && validateV2Siacoins(ms, txn) == nil && validateV2Siafunds(ms, txn) == nil && validateV2FileContracts(ms, txn) == nil && validateAttestations(ms, txn) == nil && validateFoundationUpdate(ms, txn) == nil
+//@   ensures @weight result == nil ==> ms.base.V2TransactionWeight(txn) != 0 && ms.base.V2TransactionWeight(txn) <= ms.base.MaxBlockWeight()
+
+//@ func ValidateTransaction
+//@   prop C10 C01
+//@   requires ms.base.Network != nil && msWF(*ms)
+//@   requires @sizes len(txn.SiacoinInputs) < NB && len(txn.SiafundInputs) < NB && len(txn.SiafundOutputs) < NB
+//@   requires @supply-bound scBounded(*ms, ts) && sfBounded(*ms, ts)
+//@   ensures @runs-every-validator result == nil ==> cheight(ms.base) < ms.base.Network.HardforkV2.RequireHeight && validateCurrencyOverflow(ms, txn) == nil && validateMinimumValues(ms, txn) == nil && validateSiacoins(ms, txn, ts) == nil && validateSiafunds(ms, txn, ts) == nil && validateFileContracts(ms, txn, ts) == nil && validateArbitraryData(ms, txn) == nil && validateSignatures(ms, txn) == nil
+//@   ensures @weight result == nil ==> ms.base.TransactionWeight(txn) <= ms.base.MaxBlockWeight()
